@@ -33,6 +33,36 @@ ABOUT = {
  "C14-1": ("C14", "OR evaluation order 'optimisation' computes the cheaper operand's demand twice per OR node: allocation-free exponential CPU time", "unparenthesised 'A AND B OR A AND B OR ... OR Z'"),
  "C14-2": ("C14", "node.terms appends the accumulator twice: exponential slice growth hidden by later de-duplication", "left-nested parentheses in ExtractLicenses"),
  "C15-1": ("C15", "the rewrite records a constant 8 removed bytes although 'X-or-later+' removes 9", "a prefix containing a synthesised 'X-or-later+' before the bad id"),
+ "R2-C01-1": ("C01", "per-call memo of term verdicts whose key for a reference drops the DocumentRef", "one expression with the same LicenseRef under different document qualification, list covering only one"),
+ "R2-C01-2": ("C01", "cross-call cache of parsed allowed lists keyed by {len, XOR of entry hashes}: an entry listed twice cancels out", "two Satisfies calls in one process with same-length lists that differ only in which entry is duplicated"),
+ "R2-C02-1": ("C02", "process-wide cache in getLicenseRange that stores every id of the group it found, first writer wins", "fresh process whose first MPL comparison involves MPL-2.0-no-copyleft-exception, then MPL-2.0 vs MPL-1.x+ (rides on the duplicated MPL ids, finding F10)"),
+ "R2-C02-2": ("C02", "same mechanism as C02-2 (independently produced)", "references equal up to case"),
+ "R2-C03-1": ("C03", "process-wide cache of parsed allowed entries stores the node before the compound-expression rejection", "the same compound allowed entry in a second call: nil dereference in sortAndDedup"),
+ "R2-C03-2": ("C03", "rangesAreCompatible drops the nil check for the second range", "both sides '+', expression id in the table, allowed id not: Satisfies(\"Apache-2.0+\", {\"MIT+\"})"),
+ "R2-C04-1": ("C04", "process-wide memo of unknown ids ignoring the '+' lookahead", "GFDL-1.x-[no-]invariants validated bare (unknown) before its '+' form (valid) in one process"),
+ "R2-C04-2": ("C04", "ValidateLicenses checks lists of >= 64 elements in 4 goroutines and drops the len%4 remainder", "list of >= 64 entries, len%4 != 0, invalid element in the tail"),
+ "R2-C05-1": ("C05", "process-wide cache of parsed trees keyed by the token values only (token role lost)", "a valid expression validated first, then its twin with LicenseRef-<same id> / DocumentRef-x:<id>"),
+ "R2-C05-2": ("C05", "-only accepted for deprecated-only ids (lookupID instead of lookupCurrentID)", "Nunit-only, eCos-2.0-only: an OPEN spelling in DESIGN.md section 3.1 (the statement's grammar arguably admits it); deliberately not asserted"),
+ "R2-C06-1": ("C06", "de-duplication sorts ignoring case but compares neighbours exactly", "two references differing only in case, one repeated, the other between the occurrences"),
+ "R2-C06-2": ("C06", "process-wide id cache whose key ignores the '+' lookahead", "bare deprecated GNU id scanned before its '+' form: ExtractLicenses(\"LGPL-3.0+\") changes from LGPL-3.0-or-later+ to LGPL-3.0+"),
+ "R2-C07-1": ("C07", "same mechanism as R2-C01-2 (independently produced)", "colliding duplicated lists across calls"),
+ "R2-C07-2": ("C07", "sortAndDedup compares neighbours with the case-folding equality helper; a wrongly dropped reference survives in the slice tail unless overwritten", "two references differing in case adjacent after sorting plus an entry sorting after them"),
+ "R2-C08-1": ("C08", "verdict memo for >= 4-term expressions keyed by id and '+', dropping the exception", "a GNU id with and without exception in one expression; respelling ONE occurrence as X-only flips the verdict"),
+ "R2-C08-2": ("C08", "case-sensitive map for the X+ -> X-or-later fold", "gfdl-1.1-invariants+ in non-canonical case (base on no list: outside C08's quantified domain; seen by C09 through re-cased deprecated GNU ids)"),
+ "R2-C09-1": ("C09", "shared memo of re-cased spellings between the active and deprecated lookups", "re-cased deprecated id seen bare, later the identical spelling with '+' or -only"),
+ "R2-C09-2": ("C09", "lower-cased shadow copy of the expression goes stale after the -or-later rewrite", "re-cased id before AND after a synthesised X-or-later in one expression"),
+ "R2-C10-1": ("C10", "same mechanism as C10-1 (independently produced)", "references differing in case in one expression"),
+ "R2-C10-2": ("C10", "OR chains of >= 3 operands collected in a scratch slice shared across nesting", ">= 7 terms: a parenthesised 3-chain first, later a 3-chain whose third or later operand is another parenthesised 3-chain"),
+ "R2-C11-1": ("C11", "per-expression verdict cache for >= 8 terms whose key forgets '+'", "X-v1 and X-v1+ in one expression of >= 8 terms with different verdicts"),
+ "R2-C11-2": ("C11", "bit-set summary index for allowed lists of >= 16 entries excludes a '+' entry's own version", "allowed list >= 16 entries, GNU X-only vs X-or-later at the same version"),
+ "R2-C12-1": ("C12", "generator filters ids through ^[A-Za-z0-9.-]+$ and the table is regenerated: the six deprecated 'X+' ids vanish", "GetDeprecated() vs cmd/licenses.json (generator and table agree with each other)"),
+ "R2-C12-2": ("C12", "same mechanism as C04-1 (independently produced)", "bare exception id as allowed entry"),
+ "R2-C13-1": ("C13", "process-wide cache of allowed entries keyed by the lower-cased spelling", "two calls whose allowed lists hold case variants of one reference"),
+ "R2-C13-2": ("C13", "mutex-guarded one-entry cache of the last parsed compound expression with a check-then-act gap (no data race)", "goroutines re-parsing different compound expressions concurrently"),
+ "R2-C14-1": ("C14", "depth() computes the left depth twice when the left operand is deeper: allocation-free exponential CPU", "left-nested OR groups in Satisfies"),
+ "R2-C14-2": ("C14", "allowed entries are classified through expand(false): the exponential expansion is back on the allowed-list argument", "a compound allowed entry (refused, but only after the expansion)"),
+ "R2-C15-1": ("C15", "process-wide parse cache keyed by the blank-collapsed source; cached errors keep the first spelling's offsets", "the same invalid expression with different spacing, twice in one process"),
+ "R2-C15-2": ("C15", "same mechanism as C15-1 (independently produced)", "X-or-later+ before the bad id"),
  "C15-2": ("C15", "scan results (errors included) cached under the blank-trimmed source", "the same invalid expression with different leading blanks, twice in one process"),
 }
 if "--merge" in sys.argv:
